@@ -18,19 +18,27 @@ pub struct CaseA {
   /// physically), so "which mapping fired" may be read off the output stream
   pub dist: bool,
   pub ops: Vec<Op>,
+  /// the layout as written in a file, when that is not the plain list of mappings (repeat-only
+  /// entries): the tree under test loads this text, the oracles judge against `layout`, which is
+  /// what the text means
+  pub written: Option<String>,
 }
 
 impl CaseA {
+  /// the layout the tree under test runs with
+  pub fn sut_layout(&self) -> Result<Layout, String> {
+    match &self.written { None => Ok(self.layout.clone()), Some(t) => load_text(t) }
+  }
   pub fn json(&self) -> Value {
-    json!({"world": "A", "layout_name": self.layout_name, "dist": self.dist, "layout": layout_json(&self.layout), "ops": self.ops.iter().map(op_str).collect::<Vec<_>>()})
+    json!({"world": "A", "layout_name": self.layout_name, "dist": self.dist, "layout": layout_json(&self.layout), "written": self.written, "ops": self.ops.iter().map(op_str).collect::<Vec<_>>()})
   }
   pub fn from_json(v: &Value) -> Result<CaseA, String> {
     let layout = layout_from_json(v.get("layout").ok_or("case: no layout")?)?;
     let mut ops = vec![];
     for o in v.get("ops").and_then(|o| o.as_array()).ok_or("case: no ops")? { ops.push(op_from(o.as_str().ok_or("case: op not a string")?)?); }
-    Ok(CaseA { layout, layout_name: v.get("layout_name").and_then(|x| x.as_str()).unwrap_or("").to_string(), dist: v.get("dist").and_then(|x| x.as_bool()).unwrap_or(false), ops })
+    Ok(CaseA { layout, layout_name: v.get("layout_name").and_then(|x| x.as_str()).unwrap_or("").to_string(), dist: v.get("dist").and_then(|x| x.as_bool()).unwrap_or(false), ops, written: v.get("written").and_then(|x| x.as_str()).map(|s| s.to_string()) })
   }
-  pub fn hash(&self) -> u64 { let mut h = H::new(); hash_layout(&mut h, &self.layout); hash_ops(&mut h, &self.ops); h.fin() }
+  pub fn hash(&self) -> u64 { let mut h = H::new(); hash_layout(&mut h, &self.layout); hash_ops(&mut h, &self.ops); if let Some(w) = &self.written { h.s(w); } h.fin() }
 }
 
 /// Which oracle families are evaluated in a run (one property's check enables only its own).
@@ -61,6 +69,7 @@ pub struct Obs {
   pub p_handover: u64, pub p_epoch_repress: u64, pub p_epoch_closed_by_repress: u64, pub p_c08d_checked: u64,
   pub p_twin_steps: u64, pub p_multi_in_effect: u64, pub p_stale_mod_case: u64, pub p_c05c_protected: u64,
   pub p_rest_returns: u64,
+  pub written_forms: u64, pub written_differs: u64, pub written_rejected: u64,
   pub state_hashes: Vec<u64>,
   pub digest: u64,
   pub collect_states: bool,
@@ -119,12 +128,16 @@ impl Stepper for Precomputed {
 /// Execute a case against the real mapper and evaluate the enabled oracles after every op.
 /// Returns the first violation. A panic inside the mapper propagates (callers catch it).
 pub fn execute(case: &CaseA, en: &En, obs: &mut Obs) -> Option<Violation> {
-  let mut mapper = Mapper::for_layout(&case.layout);
+  // (a written form the loader refuses is nobody's violation here: the run is not evaluated)
+  let sl = match case.sut_layout() { Ok(l) => l, Err(_) => { obs.written_rejected += 1; return None; } };
+  let mut mapper = Mapper::for_layout(&sl);
   execute_with(case, en, obs, &mut mapper)
 }
 
 pub fn execute_with(case: &CaseA, en: &En, obs: &mut Obs, mapper: &mut dyn Stepper) -> Option<Violation> {
   let l = &case.layout;
+  let sut_l = match case.sut_layout() { Ok(x) => x, Err(_) => { obs.written_rejected += 1; return None; } };
+  if case.written.is_some() { obs.written_forms += 1; if sut_l.mappings != l.mappings { obs.written_differs += 1; } }
   let has_abs = l.mappings.iter().any(|m| !m.absorbing.is_empty());
   let lk = layout_keys(l);
   let dist = case.dist;
@@ -172,7 +185,7 @@ pub fn execute_with(case: &CaseA, en: &En, obs: &mut Obs, mapper: &mut dyn Stepp
         if en.c06 && !out.is_empty() { return vio("C06-reset-held", si, format!("held on the virtual keyboard after release-all: {}", keys_str(&out))); }
         if en.c01 && phys.is_empty() && !out.is_empty() { return vio("C01", si, format!("nothing held physically but {} still down after release-all", keys_str(&out))); }
         r.reset();
-        if en.c06 { twin = Some(Mapper::for_layout(l)); if seg_fired_abs_or_special { obs.nt_c06 = true; } }
+        if en.c06 { twin = Some(Mapper::for_layout(&sut_l)); if seg_fired_abs_or_special { obs.nt_c06 = true; } }
         seg_fired_abs_or_special = false;
         norepeat_guard = false;
         epochs.clear();
@@ -455,7 +468,7 @@ pub fn execute_with(case: &CaseA, en: &En, obs: &mut Obs, mapper: &mut dyn Stepp
       }
       if phys.is_empty() {
         if !out.is_empty() { return vio("C06-rest-held", si, format!("at rest but {} held on the virtual keyboard", keys_str(&out))); }
-        twin = Some(Mapper::for_layout(l));
+        twin = Some(Mapper::for_layout(&sut_l));
         if seg_fired_abs_or_special { obs.nt_c06 = true; }
         seg_fired_abs_or_special = false;
       }
@@ -490,14 +503,17 @@ pub fn minimise(case: &CaseA, en: &En, label: &str, mut is_ok: impl FnMut(&CaseA
       let mut c = best.clone(); c.ops.remove(i);
       if let Some(v) = same(&c, &mut execs) { best = c; cur_v = v; progress = true; } else { i += 1; }
     }
+    // the written form first: if the plain list of mappings fails as well, go on without it; if the
+    // failure needs the text as written, the layout is left alone (the text would no longer mean it)
+    if best.written.is_some() { let mut c = best.clone(); c.written = None; if let Some(v) = same(&c, &mut execs) { best = c; cur_v = v; progress = true; } }
     let mut i = 0;
-    while i < best.layout.mappings.len() && execs < budget {
+    while best.written.is_none() && i < best.layout.mappings.len() && execs < budget {
       let mut c = best.clone(); c.layout.mappings.remove(i);
       if is_ok(&c) { if let Some(v) = same(&c, &mut execs) { best = c; cur_v = v; progress = true; continue; } }
       i += 1;
     }
     // shrink inside mappings
-    for mi in 0..best.layout.mappings.len() {
+    for mi in 0..(if best.written.is_none() { best.layout.mappings.len() } else { 0 }) {
       for field in 0..4 {
         let mut ki = 0;
         loop {
